@@ -162,7 +162,7 @@ func init() {
 		"(*sync.RWMutex).TryRLock":         func(fr *frame, a []value) value { return true },
 		"(*sync.WaitGroup).Add":            noop,
 		"(*sync.WaitGroup).Done":           noop,
-		"(*sync.WaitGroup).Wait":           noop,
+		"(*sync.WaitGroup).Wait":           func(fr *frame, a []value) value { fr.i.runPendingGo(); return nil },
 		"(*sync.Once).Do":                  ext۰sync۰Once۰Do,
 		"(*sync.Once).doSlow":              ext۰sync۰Once۰Do,
 		"(*sync.Pool).Get":                 ext۰sync۰Pool۰Get,
